@@ -11,6 +11,9 @@ assert sh('git -C /repo status --porcelain --untracked-files=no').stdout.strip()
 seeds = sorted(os.listdir(os.path.join(V, 'seeded')))
 seeds = [s for s in seeds if os.path.isdir(os.path.join(V, 'seeded', s))]
 if a.seeds: seeds = [s for s in seeds if s in a.seeds.split(',')]
+import shutil, tempfile
+evbak = tempfile.mkdtemp(prefix='evbak')
+shutil.copytree(os.path.join(V, 'evidence'), os.path.join(evbak, 'evidence'))
 respath = os.path.join(V, 'seeded', 'RESULTS.json')
 res = json.load(open(respath)) if os.path.exists(respath) else {}
 for s in seeds:
@@ -28,4 +31,6 @@ for s in seeds:
     finally:
         sh('git -C /repo checkout -- .')
 json.dump(res, open(respath, 'w'), indent=1, sort_keys=True)
-sh('cd %s && git checkout -- evidence 2>/dev/null' % V)
+shutil.rmtree(os.path.join(V, 'evidence'))
+shutil.copytree(os.path.join(evbak, 'evidence'), os.path.join(V, 'evidence'))
+shutil.rmtree(evbak)
